@@ -28,6 +28,7 @@ import (
 	"github.com/AliceO2Group/Control/configuration/template"
 	"github.com/AliceO2Group/Control/core/task"
 	"github.com/AliceO2Group/Control/core/task/constraint"
+	"github.com/AliceO2Group/Control/core/task/sm"
 )
 
 func WrapConstraints(items constraint.Constraints) template.Fields {
@@ -138,6 +139,17 @@ func MakeDisabledRoleCallback(r Role) func(stage template.Stage, err error) erro
 		}
 		return err
 	}
+}
+
+// GetCriticalTasksInError returns the critical tasks of the workflow whose role is in ERROR. They are
+// not active any more, so a transition (which only commands active tasks) cannot take them along.
+func GetCriticalTasksInError(r Role) task.Tasks {
+	return r.GetTasks().Filtered(func(t *task.Task) bool {
+		if pr, ok := t.GetParentRole().(Role); ok {
+			return pr.GetState() == sm.ERROR && t.GetTraits().Critical
+		}
+		return false
+	})
 }
 
 func GetActiveTasks(r Role) task.Tasks {
